@@ -6,6 +6,7 @@ import (
 	"strings"
 	"sync"
 	"syscall"
+	"time"
 
 	"github.com/glebziz/fs_db"
 	"github.com/glebziz/fs_db/internal/verifh/ev"
@@ -40,6 +41,7 @@ type fileDiffRun struct {
 	get      model.Err
 	sum      [32]byte
 	n        int
+	hung     string
 }
 
 func runFileDiff(c FileDiffCase, external bool) (fileDiffRun, error) {
@@ -108,7 +110,17 @@ func runFileDiff(c FileDiffCase, external bool) (fileDiffRun, error) {
 			}
 		}
 		for i := 0; i < c.Closes || i == 0; i++ {
-			cerr := f.Close()
+			// Close always returns (a Close that has not returned after 30 s of an upload of at most a few
+			// megabytes never will)
+			done := make(chan error, 1)
+			go func() { done <- f.Close() }()
+			var cerr error
+			select {
+			case cerr = <-done:
+			case <-time.After(30 * time.Second):
+				out.hung = fmt.Sprintf("Close number %d has not returned after 30 s", i+1)
+				return out, nil
+			}
 			out.closes = append(out.closes, Class(cerr))
 			if cerr != nil {
 				out.closeMsg = append(out.closeMsg, cerr.Error())
@@ -139,6 +151,15 @@ func ExecC11FileDiff(c FileDiffCase) *ev.Result {
 	ex, err := runFileDiff(c, true)
 	if err != nil {
 		panic("INFRA: " + err.Error())
+	}
+	for _, run := range []struct {
+		name string
+		r    fileDiffRun
+	}{{"inline", in}, {"gRPC", ex}} {
+		if run.r.hung != "" {
+			r.Failf("Create(emptyKey=%v, inTx=%v, prev=%d, roots full after %d bytes), writes %v, %d x Close on the %s client: %s", c.EmptyKey, c.InTx, c.Prev, c.NoSpace, c.Writes, c.Closes, run.name, run.r.hung)
+			return r
+		}
 	}
 	desc := fmt.Sprintf("Create(emptyKey=%v, inTx=%v, prev=%d, roots full after %d bytes), writes %v, %d x Close", c.EmptyKey, c.InTx, c.Prev, c.NoSpace, c.Writes, c.Closes)
 	if in.create != ex.create {
